@@ -384,3 +384,104 @@ def moment_spread(h):
             # the scale of the summed magnitudes, not of the (possibly vanishing) result
             mag = ' + '.join('abs(%s)' % t for t in terms)
             h.check('weighted-mean-of-the-powered-deviations', 'abs(r - %s) <= 1e-9 * (1 + %s)' % (spec, mag), r=r, x=x, w=w)
+
+
+# ---------------------------------------------------------------------------- medians (order statistics)
+def _sorted_expr(names):
+    """the i-th smallest of a few symbolic numbers, as contract text over min / max (n <= 4)"""
+    n = len(names)
+    if n == 1:
+        return [names[0]]
+    if n == 2:
+        a, b = names
+        return ['min(%s, %s)' % (a, b), 'max(%s, %s)' % (a, b)]
+    if n == 3:
+        a, b, c = names
+        return ['min(%s, %s, %s)' % (a, b, c), 'max(min(%s, %s), min(max(%s, %s), %s))' % (a, b, a, b, c), 'max(%s, %s, %s)' % (a, b, c)]
+    a, b, c, d = names
+    lo1, hi1, lo2, hi2 = 'min(%s, %s)' % (a, b), 'max(%s, %s)' % (a, b), 'min(%s, %s)' % (c, d), 'max(%s, %s)' % (c, d)
+    return ['min(%s, %s)' % (lo1, lo2), 'min(max(%s, %s), min(%s, %s))' % (lo1, lo2, hi1, hi2),
+            'max(max(%s, %s), min(%s, %s))' % (lo1, lo2, hi1, hi2), 'max(%s, %s)' % (hi1, hi2)]
+
+
+def _median_expr(names):
+    s = _sorted_expr(names)
+    n = len(names)
+    return s[n // 2] if n % 2 else '((%s) + (%s)) / 2' % (s[n // 2 - 1], s[n // 2])
+
+
+@contract('C18/median', ['C18'], F + '::median', samples=200)
+def median(h):
+    """unweighted (and equally weighted) samples: the middle order statistic, the mean of the two middle ones for an even
+    number of points (n = 1..4, all values).  (Weighted with an even number of points: finding F38.)"""
+    n = h.choice('n', SIZES)
+    wk = h.choice('weights', ['None', 'equal', 'positive'])
+    x = h.vec('x', n)
+    w = None
+    if wk == 'equal':
+        c = h.real('w')
+        h.assume('c > 0', c=c)
+        w = h.clist([c] * n)
+    elif wk == 'positive':
+        if n % 2 == 0:
+            return                  # (an even number of weighted points: finding F38)
+        w = h.vec('w', n)
+        h.assume(' and '.join('w[%d] > 0' % i for i in range(n)), w=w)
+    r = h.call(h.get(F + '::median'), x, w)
+    env = {'x%d' % i: h.ev('x[%d]' % i, x=x) for i in range(n)}
+    if wk == 'positive':
+        # the weighted (lower) median: a sample point with less than half of the mass strictly below it and at least half of
+        # it at or below it
+        tot = ' + '.join('w[%d]' % i for i in range(n))
+        below = ' + '.join('(w[%d] if x[%d] < r else 0)' % (i, i) for i in range(n))
+        upto = ' + '.join('(w[%d] if x[%d] <= r else 0)' % (i, i) for i in range(n))
+        h.check('weighted-median-splits-the-mass', '(%s) and 2 * (%s) < (%s) and 2 * (%s) >= (%s)'
+                % (' or '.join('r == x[%d]' % i for i in range(n)), below, tot, upto, tot), r=r, x=x, w=w)
+        return
+    h.check('textbook-median', 'r == %s' % _median_expr(sorted(env)), r=r, **env)
+
+
+@contract('C18/impose_median', ['C18'], F + '::impose_median', samples=200)
+def impose_median(h):
+    """the points are shifted by one common amount and their median is the requested one (n = 1..4, unweighted)"""
+    n = h.choice('n', SIZES)
+    x = h.vec('x', n)
+    m = h.real('target')
+    y = h.call(h.get(F + '::impose_median'), m, x)
+    env = {'y%d' % i: h.ev('y[%d]' % i, y=y) for i in range(n)}
+    h.check('requested-median-reached', 'm == %s' % _median_expr(sorted(env)), m=m, **env)
+    h.check('one-common-shift', ' and '.join('y[%d] - x[%d] == y[0] - x[0]' % (i, i) for i in range(n)), y=y, x=x)
+
+
+@contract('C18/mad', ['C18'], F + '::mad', samples=200)
+def mad(h):
+    """median absolute deviation of unweighted points: the median of |x_i - median(x)| (n = 1..3)"""
+    n = h.choice('n', [1, 2, 3])
+    x = h.vec('x', n)
+    r = h.call(h.get(F + '::mad'), x)
+    env = {'x%d' % i: h.ev('x[%d]' % i, x=x) for i in range(n)}
+    med = _median_expr(sorted(env))
+    devs = ['abs(%s - (%s))' % (nm, med) for nm in sorted(env)]
+    h.check('textbook-median-absolute-deviation', 'r == %s' % _median_expr(devs), r=r, **env)
+
+
+@contract('C18/impose_mad', ['C18'], F + '::impose_mad', samples=200)
+def impose_mad(h):
+    """impose_mad(s, x) on points whose median absolute deviation is not zero: the result has the requested deviation (s >= 0)
+    and the median of the input (n = 2, 3, unweighted)"""
+    n = h.choice('n', [2, 3])
+    x = h.vec('x', n)
+    s = h.real('target')
+    h.assume('s >= 0', s=s)
+    env0 = {'x%d' % i: h.ev('x[%d]' % i, x=x) for i in range(n)}
+    med0 = _median_expr(sorted(env0))
+    devs0 = ['abs(%s - (%s))' % (nm, med0) for nm in sorted(env0)]
+    h.assume('(%s) != 0' % _median_expr(devs0), **env0)
+    if not h.is_sym():
+        h.assume('(%s) > 1e-6' % _median_expr(devs0), **env0)        # floats: a deviation that is non-zero by rounding only
+    y = h.call(h.get(F + '::impose_mad'), s, x)
+    env = {'y%d' % i: h.ev('y[%d]' % i, y=y) for i in range(n)}
+    med = _median_expr(sorted(env))
+    devs = ['abs(%s - (%s))' % (nm, med) for nm in sorted(env)]
+    h.check('median-preserved', '(%s) == (%s)' % (med, med0), **dict(env, **env0))
+    h.check('requested-deviation-reached', 's == %s' % _median_expr(devs), s=s, **env)
